@@ -65,7 +65,8 @@ P == CASE Profile = "c04q" ->
              idirs |-> {<<Iu("inc"), Iu("sys")>>, <<Iu("inc"), Is("sys")>>, <<Iu("bld"), Iu("inc"), Iu("sys")>>,
                         <<Iu("sys"), Iu("inc"), Iu("bld")>>,      \* the same SET of directories in another order
                         <<Iu("ext"), Iu("inc"), Is("sys")>>},
-             forced |-> {<<>>}, nents |-> 3, plats |-> <<"p1", "p2", "p3">>]
+             \* (two platform names that differ only in letter case: distinct platforms)
+             forced |-> {<<>>}, nents |-> 3, plats |-> <<"p1", "P1", "p3">>]
       [] Profile = "c10" ->
             \* headers that change and test the macro state, included several times by one TU, inside and outside the root
             [slots |-> <<<<"inc", "h.h">>, <<"ext", "g.h">>, <<"inc", "g.h">>>>,
